@@ -518,7 +518,11 @@ def h_results(shape):
                 t = inp.real("t%d_%d" % (i, j), 0, 1)
                 inp.assume(t > t_prev)
                 t_prev = t
-                r._store_raw(uuid=u, tag=tag, time=t, value=inp.real("v%d_%d" % (i, j), -10, 10))
+                v = inp.real("v%d_%d" % (i, j), -10, 10)
+                if shape.get("kinds"):
+                    # other kinds of values an observable may store: complex numbers, lists of numbers, counters
+                    v = {"complex": complex(0.5, -1.5), "list": [v, 2.0], "counter": {"01": 3, "10": 7}}[shape["kinds"][(i + j) % len(shape["kinds"])]]
+                r._store_raw(uuid=u, tag=tag, time=t, value=v)
         try:
             r2 = Results.from_abstract_repr(r.to_abstract_repr())
         except Exception:  # noqa: BLE001
@@ -539,6 +543,8 @@ def kernels(tier):
     ks.append(("results", dict(n_obs=1, tags=["energy"], n_times=2)))
     ks.append(("results", dict(n_obs=2, tags=["energy", "occupation"], n_times=2)))
     ks.append(("results", dict(n_obs=3, tags=["energy", "occupation", "energy"], n_times=1)))
+    ks.append(("results", dict(n_obs=2, tags=["occupation", "bitstrings"], n_times=2, kinds=["list", "counter"])))
+    ks.append(("results", dict(n_obs=1, tags=["expectation"], n_times=2, kinds=["complex"])))
     ks.append(("config", dict(obs=["bitstrings"], times=[True])))
     ks.append(("config", dict(obs=["bitstrings", "occupation"], times=[False, True], default_times="sym", suffix=True)))
     ks.append(("config", dict(obs=["correlation", "energy", "variance"], times=[True, False, False], default_times="full", mod=True)))
